@@ -739,13 +739,6 @@ impl Inner {
                     return Err(Error::library_go_away(Reason::PROTOCOL_ERROR));
                 }
 
-                // Only HEADERS, RST_STREAM and PRIORITY may arrive on a stream
-                // that is merely promised (RFC 9113, 5.1 "reserved (remote)").
-                if stream.state.is_reserved_remote() {
-                    proto_err!(conn: "recv_window_update: received frame on reserved stream {:?}", id);
-                    return Err(Error::library_go_away(Reason::PROTOCOL_ERROR));
-                }
-
                 let res = self
                     .actions
                     .send
